@@ -178,14 +178,14 @@ func c13Cases(seed int64, thorough bool) []c13Case {
 		}})
 	}
 	pics := map[string]image.Image{
-		"graded-97x61":    lossyPicture(rng, 97, 61, "graded"),
-		"noise-64x48":     noiseNRGBA(rng, 64, 48, 0),
-		"smooth-130x70":   lossyPicture(rng, 130, 70, "smooth"),
-		"alpha-75x33":     gradientAlpha(rng, 75, 33),
-		"palette-40x40":   palettedNRGBA(rng, 40, 40, 9),
+		"graded-97x61":      lossyPicture(rng, 97, 61, "graded"),
+		"noise-64x48":       noiseNRGBA(rng, 64, 48, 0),
+		"smooth-130x70":     lossyPicture(rng, 130, 70, "smooth"),
+		"alpha-75x33":       gradientAlpha(rng, 75, 33),
+		"palette-40x40":     palettedNRGBA(rng, 40, 40, 9),
 		"wide-alpha-4200x6": gradientAlpha(rng, 4200, 6), // wider than any SIMD tile/scratch buffer of the upsampler
-		"tiny-1x1":        noiseNRGBA(rng, 1, 1, 2),
-		"odd-17x3":        noiseNRGBA(rng, 17, 3, 2),
+		"tiny-1x1":          noiseNRGBA(rng, 1, 1, 2),
+		"odd-17x3":          noiseNRGBA(rng, 17, 3, 2),
 	}
 	names := []string{"graded-97x61", "noise-64x48", "smooth-130x70", "alpha-75x33", "palette-40x40", "wide-alpha-4200x6", "tiny-1x1", "odd-17x3"}
 	for _, pn := range names {
